@@ -78,7 +78,8 @@ def class_table(tree, problems):
                 continue
             parent = table[bases[0]]
         ent = dict(parent) if parent else {'code': None, 'title': None, 'explanation': None, 'tmpl': None,
-                                           'tmpl_owner': None, 'empty': False, 'move': False}
+                                           'tmpl_owner': None, 'empty': False, 'move': False,
+                                           'init_owner': 'HTTPException'}
         ent['name'] = cd.name
         try:
             if 'code' in attrs:
@@ -102,6 +103,7 @@ def class_table(tree, problems):
                 fn = attrs['def __init__']
                 names = [a.arg for a in fn.args.args + fn.args.kwonlyargs]
                 ent['move'] = 'location' in names
+                ent['init_owner'] = cd.name
             # class bodies are part of the tie: nothing but the modelled attributes / the known constructors
             if cd.name == 'HTTPException':
                 allowed = {'code', 'title', 'explanation', 'body_template_obj', 'plain_template_obj', 'html_template_obj',
@@ -255,6 +257,14 @@ def extract(src, problems):
             _s(e['name']), _s(str(e['code'])), _s(e['title']), _s(e['explanation']), _s(e['tmpl']),
             _bool(e['tmpl_owner'] == 'HTTPException'), _bool(e['empty']), _bool(e['move'])))
     L.append('Definition classes : list cls := [\n%s].\n' % ';\n'.join(cl))
+    # classes whose constructor is HTTPForbidden.__init__ (translated: gen_forbidden_init)
+    fb = [e['name'] for e in classes if e.get('init_owner') == 'HTTPForbidden']
+    for e in classes:
+        if e.get('init_owner') not in ('HTTPException', '_HTTPMove', 'HTTPForbidden'):
+            problems.append('class %s: constructor defined by %s, which the model does not know' % (e['name'], e.get('init_owner')))
+        if (e.get('init_owner') == '_HTTPMove') != bool(e['move']):
+            problems.append('class %s: location= constructor not owned by _HTTPMove' % e['name'])
+    L.append('Definition forbidden_init_classes : list text := [%s].\n' % '; '.join(_s(n) for n in fb))
     L.append('\n(* ---- REGENERATED by harness/c19/translate.py from HTTPException.__init__, _HTTPMove.__init__,\n'
              '   _json_formatter, prepare, __call__ of this source tree *)\n')
     L.append(gen)
@@ -262,7 +272,7 @@ def extract(src, problems):
                'custom_template_classes': sorted(e['name'] for e in classes if e['tmpl_owner'] != 'HTTPException'),
                'empty_body_classes': sorted(e['name'] for e in classes if e['empty']),
                'notfound_detail': 'request.' + nf, 'raiser_formats': fmts,
-               'translated': ['HTTPException.__init__', '_HTTPMove.__init__', 'HTTPException._json_formatter',
+               'translated': ['HTTPException.__init__', '_HTTPMove.__init__', 'HTTPForbidden.__init__', 'HTTPException._json_formatter',
                               'HTTPException.prepare', 'HTTPException.__call__'],
                'negotiation': {'offers': meta.get('offers'), 'accept': meta.get('env_get')}}
     return ''.join(L), summary
